@@ -190,15 +190,22 @@ impl Commands {
     /// Removes the requested command.
     pub fn remove(&mut self, name: &str) -> bool {
         let command_name = match self.aliases.get(name) {
-            Some(ref value) => value,
-            None => name,
+            Some(ref value) => value.to_string(),
+            None => name.to_string(),
         };
 
-        match self.commands.remove(command_name) {
+        match self.commands.remove(&command_name) {
             Some(command) => {
                 let aliases = command.aliases();
                 for alias in &aliases {
-                    self.aliases.remove(alias);
+                    // an alias may have been taken over by another command since
+                    let points_to_removed = match self.aliases.get(alias) {
+                        Some(target) => *target == command_name,
+                        None => false,
+                    };
+                    if points_to_removed {
+                        self.aliases.remove(alias);
+                    }
                 }
 
                 true
